@@ -106,4 +106,15 @@ PROPS = {
         "assumptions": ["messages enter the functions as decodings of generated wire bytes; the fresh transaction id of NewRequestFromAdvertise is zeroed before comparison"],
         "trusted_base": ["modelled, not verified: dhcpv6 relay functions and message builders"],
     },
+    "C18": {
+        "coq_files": BASE + ["V4/Model.v", "V4/RoundTrip.v", "Raw/", "Gen/", "Tie/", "Props/C18.v"],
+        "spec_entries": [61],
+        "rule": "writes: every payload length 0..1500 x 1 (quick) / 4 (thorough) fills (all-zero, all-ones, alternating, random), boundary and random addresses/ports, each frame "
+                "checked by an independent RFC 791/768/1071 validator and (sampled) compared byte-for-byte with udp4pkt; reads: sequences of 1..6 frames mixing valid ones, IHL 6..15, "
+                "trailing padding, total length shorter/longer than the frame (including < 8 octets of IP payload), non-IPv4, non-UDP, truncation at any offset, other ports/addresses, "
+                "empty reads, nil / port-only / address+port bounds (4- and 16-octet forms), buffer sizes 0..1500; reader output vs the model and vs an independent specification; "
+                "non-trivial = distinct case",
+        "assumptions": ["the connection is bound (NewBroadcastUDPConn with a non-nil address) when writing; fragments, the UDP length field and received checksums are not examined by the reader nor by the specification"],
+        "trusted_base": ["modelled, not verified: nclient4 udp4pkt, checksum helpers, BroadcastRawUDPConn.ReadFrom/WriteTo; the scripted in-memory PacketConn"],
+    },
 }
